@@ -101,6 +101,19 @@ func genFrame(t *rapid.T, typ corpus.Type) []byte {
 	if err != nil {
 		return nil
 	}
+	// a record occurring twice (what concatenating two encodings gives: a repeated element twice, a singular
+	// field where the last one wins, the same map key twice)
+	if rapid.IntRange(0, 3).Draw(t, "duprecord") == 0 {
+		if items, ok, _ := wirex.Walk(b); ok && len(items) > 0 {
+			it := items[rapid.IntRange(0, len(items)-1).Draw(t, "dupwhich")]
+			rec := append([]byte{}, b[it.Start:it.End]...)
+			if rapid.Bool().Draw(t, "dupatend") {
+				b = append(b, rec...)
+			} else {
+				b = append(append(append([]byte{}, b[:it.End]...), rec...), b[it.End:]...)
+			}
+		}
+	}
 	// unknown fields (numbers outside every example schema), of all four wire types, inserted at drawn
 	// field boundaries (before, between and after the known fields)
 	for k, n := 0, rapid.IntRange(0, 2).Draw(t, "nunknown"); k < n; k++ {
